@@ -6,6 +6,7 @@
   names, list order or the order in which a connection lists its two blocks.
 -/
 import PyTough.Proofs.GridPhys
+import PyTough.Proofs.GridMincSpec
 import PyTough.Props.C08
 namespace Props.C09
 open Py Model Model.Grid Model.Grid.World
@@ -82,6 +83,65 @@ theorem compose_preserves_phys {w : World} (hI : Grid.Inv w) (ops : List Op) (h 
     obtain ⟨h2, h3⟩ := ih h1.2 hr
     exact ⟨h1.1.trans h2, h3⟩
 
+/-! ### MINC -/
+
+/-- **minc_volume_split** (arithmetic): with the fractions normalised by their (non-zero) sum as
+    `minc` does, the fracture share `V·f₀` plus the matrix shares `V·f_k` add up to the original `V`. -/
+theorem minc_volume_split (V : Rat) (fracs : List Rat) (hne : fracs ≠ []) (hs : sumRat fracs ≠ 0) :
+    V * (normFracs fracs).headD 0 + sumRat (((normFracs fracs).drop 1).map (V * ·)) = V := by
+  have hne' : normFracs fracs ≠ [] := by
+    unfold normFracs; intro h; exact hne (List.map_eq_nil_iff.mp h)
+  rw [Proofs.Grid.sumRat_map_mul]
+  have h1 := Proofs.Grid.headD_add_sum_drop (normFracs fracs) hne'
+  have h2 := Proofs.Grid.sumRat_normFracs fracs hs
+  rw [h2] at h1
+  grind
+
+/-- **minc_levels / minc_chain.**  The loop of `minc` over the matrix levels of one selected block
+    (called with `origVol` = the block's volume before, `vfs` = the normalised fractions of levels
+    1, 2, …, `lastblk` = the block itself), when it completes: it appends one new block per level
+    to the block list, level `i` with volume `origVol·vfs[i]` and the level's name; existing blocks
+    keep volume and name; it appends one connection per level, forming the chain
+    block → matrix 1 → matrix 2 → … with area `origVol·a[m-1]` and distances `(d[m-1], d[m])`
+    (`mincChain` / `mincCon`); the returned indices are the new blocks' positions; and the grid is
+    consistent. -/
+theorem minc_levels_spec (args : MincArgs) (blkname : Name) (origVol : Rat) (origRock : Nat) (centre : Option (List Rat))
+    (vfs : List Rat) {w : World} (m0 : Nat) {lastblk : Nat} (iblk : Nat) (idx : List Nat) {w' : World} {iblk' : Nat} {idx' : List Nat}
+    (hI : Grid.Inv w) (hlast : lastblk ∈ w.blocklist)
+    (hok : mincLevels args blkname origVol origRock centre w vfs m0 lastblk iblk idx = .ok (w', iblk', idx')) :
+    Grid.Inv w' ∧
+    w'.blocklist = w.blocklist ++ List.range' w.blks.length vfs.length ∧
+    w'.blks.length = w.blks.length + vfs.length ∧
+    (∀ x, x < w.blks.length → (w'.bk x).volume = (w.bk x).volume ∧ (w'.bk x).name = (w.bk x).name) ∧
+    (∀ i (hi : i < vfs.length), (w'.bk (w.blks.length + i)).volume = origVol * vfs[i] ∧
+        (w'.bk (w.blks.length + i)).name = matrixBlockname blkname (m0 + i + 1)) ∧
+    w'.connectionlist = w.connectionlist ++ List.range' w.cons.length vfs.length ∧
+    w'.cons = w.cons ++ Proofs.Grid.mincChain args origVol m0 lastblk w.blks.length vfs ∧
+    iblk' = iblk + vfs.length ∧ idx' = idx ++ List.range' (iblk + 1) vfs.length :=
+  Proofs.Grid.mincLevels_spec args blkname origVol origRock centre vfs m0 iblk idx hI hlast hok
+
+/-- `minc` as a whole keeps the grid consistent, whatever its arguments (it raises on a duplicate
+    matrix block name, leaving a consistent grid behind) -/
+theorem minc_keeps_inv {w : World} (hI : Grid.Inv w) (args : MincArgs) : Grid.Inv (step w (.minc args)).w :=
+  Props.C08.inv_step_core hI _ rfl rfl
+
+/-! ### embed -/
+
+/-- **embed_conserves_volume.**  Under the hypotheses of `Props.C08.embed_consistent`: when `embed`
+    returns a grid, its total volume equals the host grid's total volume before (the sub-grid's
+    volume is taken out of the host block). -/
+theorem embed_conserves_volume {w : World} {sub : Grid} {c : Nat}
+    (h1 : Grid.Inv w) (h2 : Grid.Inv (w.withGrid sub))
+    (oR : ∀ x ∈ w.rocktypelist, x ∉ sub.rocktypelist) (oB : ∀ x ∈ w.blocklist, x ∉ sub.blocklist)
+    (oC : ∀ x ∈ w.connectionlist, x ∉ sub.connectionlist)
+    (nR : ∀ x ∈ w.rocktypelist, ∀ y ∈ sub.rocktypelist, w.rname x = w.rname y → ∀ b ∈ w.blocklist, (w.bk b).rock ≠ x)
+    (hc : c < w.cons.length) (hc1 : c ∉ w.connectionlist) (hc2 : c ∉ sub.connectionlist)
+    (hhost : (w.cn c).b0 ∈ w.blocklist) (hsb : (w.cn c).b1 ∈ sub.blocklist)
+    {w' : World} (hok : embed w sub c = .ok (w', true)) : totalVolume w' = totalVolume w := by
+  have := Proofs.Grid.embed_inv h1 h2 oR oB oC nR hc hc1 hc2 hhost hsb
+  rw [hok] at this
+  exact this.2
+
 namespace Examples
 open Props.C08.Examples
 
@@ -96,6 +156,16 @@ example : ((step w0 ro).w.cn 1).b0 = 2 ∧ ((step w0 ro).w.cn 1).d0 = 3 ∧ ((st
     (w0.cn 1).b0 = 1 ∧ (w0.cn 1).d0 = 2 ∧ (w0.cn 1).dircos = some (-1) := by decide
 -- … and its physical signature is the same
 example : conPhys (step w0 ro).w 1 = conPhys w0 1 := by decide
+
+-- MINC on block B (volume 2) with fractions 1 : 1 : 2 : fracture 1/2, matrix 1/2 and 1, chained B → 1B → 2B
+def mi : Op := .minc ⟨[1, 1, 2], [3, 5], [0, 7, 11], [B], 1000⟩
+example : let o := step w0 mi
+    o.exc = none ∧ o.ret = [[1, 3, 4]] ∧
+    (o.w.bk 1).volume = 1/2 ∧ (o.w.bk 3).volume = 1/2 ∧ (o.w.bk 4).volume = 1 ∧
+    ((o.w.cn 2).b0, (o.w.cn 2).b1, (o.w.cn 2).area, (o.w.cn 2).d0, (o.w.cn 2).d1) = (1, 3, 6, 0, 7) ∧
+    ((o.w.cn 3).b0, (o.w.cn 3).b1, (o.w.cn 3).area, (o.w.cn 3).d0, (o.w.cn 3).d1) = (3, 4, 10, 7, 11) ∧
+    checkInv o.w = true := by decide +kernel
+example : sumRat [1, 1, 2] ≠ 0 := by decide +kernel
 
 end Examples
 end Props.C09
